@@ -149,7 +149,7 @@ func TestC07(t *testing.T) {
 	fh.Acts = append(fh.Acts, act{Op: "neg", A: 2}, act{Op: "flip", A: 3}, act{Op: "rescale", A: 4, Seed: 5}, act{Op: "redecode", A: 5},
 		act{Op: "precomp_custom", N: hx.Shard() % 8, S: &one, T: &two})
 	c07Part.EvalCase(s, fh)
-	c07Part.Run(s, hx.PerShard(hx.Pick(40000, 800000)))
+	c07Part.Run(s, hx.PerShard(hx.Pick(40000, 400000)))
 	c07Part.RunConcurrent(s, 8, hx.Pick(250, 4000))
 }
 
@@ -282,6 +282,6 @@ func TestC11(t *testing.T) {
 			c11Part.EvalCase(s, c11Case{H: h, Batch: []int{2, 2, 3, 4, 0, 5, 2, 6, 7, 1, 8, 9}})
 		}
 	}
-	c11Part.Run(s, hx.PerShard(hx.Pick(40000, 800000)))
+	c11Part.Run(s, hx.PerShard(hx.Pick(40000, 400000)))
 	c11Part.RunConcurrent(s, 8, hx.Pick(250, 4000))
 }
